@@ -93,6 +93,11 @@ func CDecompressSafe(src []byte) (dst cmem.CArray, err error) {
 		return
 	}
 	sizeD := SizeDecompressed(src)
+	if src[0]&1 == 0 && sizeD != sizeC-headerLen(src) {
+		// stored (uncompressed) block: the C code would memcpy sizeD bytes whatever the source holds
+		err = fmt.Errorf("bad sizeDecompressed of a stored block, expect %d, got %d", sizeC-headerLen(src), sizeD)
+		return
+	}
 	dst, err = CDecompress(src, sizeD)
 	if err != nil {
 		return
